@@ -246,6 +246,11 @@ func concPrograms(thorough bool) []*cprog {
 	// evicts on a timer): two consecutive records of one session are delivered by different threads at once
 	ps = append(ps, &cprog{Name: "P12 LOGIN || the session's next record (two delivering threads) || login", Sess: ev3, Logins: l2, Bound: -1,
 		Threads: [][]Op{{A(0, 0)}, {A(0, 1)}, {L(0)}}, Suffix: probe1})
+	// P13: the end of a session that HAS its login, against the session's next record from the other delivering
+	// thread: the record is either before the end (emitted, then the end) or after it (dropped) - never emitted
+	// after the end
+	ps = append(ps, &cprog{Name: "P13 credential disposal of a correlated session || the session's next record", Sess: ev3, Logins: l2, Bound: -1,
+		Prefix: []Op{L(0), A(0, 0), A(0, 1)}, Threads: [][]Op{{A(0, 2)}, {A(0, 3)}}, Suffix: []Op{A(0, 3), A(1, 0)}})
 	// P11: a session that has collected more than a thousand records before its login arrives (a busy session,
 	// a slow sshd pipe): the flush of the hold queue is one step as far as the session's further records go -
 	// a record arriving meanwhile comes after everything held, whatever the flush does with the locks
